@@ -113,6 +113,10 @@ theorem svcT_armTtl (s : Stack) (ttl : Nat) (cb : Cb) (h : isSvcExpiry cb = fals
 
 @[simp] theorem svcT_with_flushLog (s : Stack) (x : List (Dest × List SDEntry)) : svcT { s with flushLog := x } = svcT s := rfl
 @[simp] theorem svcT_with_subLog (s : Stack) (x : List (Addr × Nat × List Eventgroup)) : svcT { s with subLog := x } = svcT s := rfl
+@[simp] theorem svcT_with_subDup (s : Stack) (x : Bool) : svcT { s with subDup := x } = svcT s := rfl
+@[simp] theorem svcT_with_subLost (s : Stack) (x : Bool) : svcT { s with subLost := x } = svcT s := rfl
+@[simp] theorem svcT_with_alive_subLost (s : Stack) (x y : Bool) : svcT { s with alive := x, subLost := y } = svcT s := rfl
+@[simp] theorem svcT_with_subDup_subEntries (s : Stack) (x : Bool) (y : List (Eventgroup × Addr)) : svcT { s with subDup := x, subEntries := y } = svcT s := rfl
 @[simp] theorem svcT_flushTo (s : Stack) (es : List SDEntry) (d : Dest) : svcT (s.flushTo es d) = svcT s := by
   unfold flushTo; rw [svcT_sendSd]; rfl
 
@@ -249,11 +253,11 @@ theorem svcT_armTtl (s : Stack) (ttl : Nat) (cb : Cb) (h : isSvcExpiry cb = fals
 @[simp] theorem svcT_subscriberStop (s : Stack) (b : Bool) : svcT (s.subscriberStop b) = svcT s := by
   unfold subscriberStop; split; rfl
   simp only []
-  have h1 : svcT (match ({ s with alive := false } : Stack).subTask with
-      | some tid => { ({ s with alive := false } : Stack).cancelTask (.subscribe, tid) with subTask := none }
-      | none => ({ s with alive := false } : Stack)) = svcT s := by
+  have h1 : svcT (match ({ s with alive := false, subLost := !b } : Stack).subTask with
+      | some tid => { ({ s with alive := false, subLost := !b } : Stack).cancelTask (.subscribe, tid) with subTask := none }
+      | none => ({ s with alive := false, subLost := !b } : Stack)) = svcT s := by
     split
-    · show svcT (({ s with alive := false } : Stack).cancelTask _) = svcT s; rw [svcT_cancelTask]; rfl
+    · show svcT (({ s with alive := false, subLost := !b } : Stack).cancelTask _) = svcT s; rw [svcT_cancelTask]; rfl
     · rfl
   split
   · rw [foldl_pres svcT _ (fun s p => by simp)]; exact h1
